@@ -293,19 +293,19 @@ def impl_cmdline(arg):
         sys.argv = argv
     return [observe(E, buf, [], idof), st]
 
-def err_to_wire(e):
-    """attributes of a real scanner error, in the wire format of kinds and contexts"""
-    from pybtex.scanner import TokenRequired
-    kind = [1, norm(e.error_type), opt(e.lineno)]
-    if isinstance(e, TokenRequired):
-        info = e.error_context_info
-        ctx = [1, norm(e.parser.text), opt(info[0]), info[1]]
-    else:
-        ctx = [0]
-    return kind, ctx
+def public_context(e):
+    """get_context() as a res of an optional string, through the public method only"""
+    try:
+        c = e.get_context()
+        if c is not None and not isinstance(c, str):
+            return [2]
+        return [0, [] if c is None else [norm(c)]]
+    except Exception:
+        return [2]
 
 def impl_scanner(arg):
-    from pybtex.scanner import Scanner, Literal, PybtexSyntaxError
+    from pybtex.scanner import Scanner, Literal
+    from pybtex.exceptions import PybtexError
     from pybtex.errors import format_error
     text, lit, fn = S(arg[0]), S(arg[1]), arg[2]
     filename = None if fn == [] else (S(fn[1]) if fn[0] == 0 else 5)
@@ -313,15 +313,180 @@ def impl_scanner(arg):
     try:
         tok = sc.required([Literal(lit)])
         return [0, norm(tok.value)]
-    except PybtexSyntaxError as e:
-        kind, ctx = err_to_wire(e)
-        return [1, kind, ctx, norm(e.args[0]), call_impl_noerr(format_error, e, 'ERROR: ')]
+    except PybtexError as e:
+        ln = getattr(e, 'lineno', None)
+        return [1, opt(ln if isinstance(ln, int) else None), public_context(e), call_impl_noerr(format_error, e, 'ERROR: ')]
+
+def canon_context_value(c):
+    """source lines exactly; of the marker line only its column (the glyphs are wording)"""
+    if c[0] != 0 or c[1] == [] or c[1] == [[]]:
+        return c[:1] + [[]] if c[0] == 0 else c
+    lines = S(c[1][0]).split('\n')
+    marker = lines[-1] if len(lines) > 1 else ''
+    return [0, norm(lines[:-1] if len(lines) > 1 else lines), len(marker) - len(marker.lstrip(' '))]
+
+def _mk_scanner(sc, cls):
+    text, fn, ln, pos = S(sc[0]), (None if sc[1] == [] else S(sc[1][0])), sc[2], sc[3]
+    p = cls(text, filename=fn)
+    p.lineno = ln
+    p.pos = pos
+    return p
+
+def impl_construct(arg):
+    """call the real constructor with the given parameters; observe the object through its public
+    interface: str, get_context, format_error, lineno, get_filename"""
+    from pybtex.scanner import Scanner, PybtexSyntaxError, PrematureEOF, TokenRequired
+    from pybtex.errors import format_error
+    tag = arg[0]
+    if tag == 0:
+        fn = arg[2]
+        e = plain_classes()[len(arg[1]) % len(plain_classes())](S(arg[1]), None if fn == [] else (S(fn[1]) if fn[0] == 0 else 5))
+    elif tag == 1:
+        et = S(arg[1])
+        p = _mk_scanner(arg[3], Scanner)
+        if et == 'syntax error':
+            cls = PybtexSyntaxError
+        elif et == 'undefined string':
+            from pybtex.database.input.bibtex import UndefinedMacro as cls
+        else:
+            cls = _CUSTOM.get(et) or _CUSTOM.setdefault(et, type('CustomSyntaxError', (PybtexSyntaxError,), {'error_type': et}))
+        e = cls(S(arg[2]), p)
+    elif tag == 2:
+        e = PrematureEOF(_mk_scanner(arg[1], Scanner))
+    elif tag == 3:
+        e = TokenRequired(S(arg[1]), _mk_scanner(arg[2], Scanner))
+    elif tag == 4:
+        from pybtex.database.input.bibtex import LowLevelParser
+        p = _mk_scanner(arg[2], LowLevelParser)
+        p.command_start = unopt(arg[3])
+        e = TokenRequired(S(arg[1]), p)
+    else:
+        from pybtex.auxfile import AuxDataError, AuxDataContext
+        c = AuxDataContext(None if arg[2][0] == [] else S(arg[2][0][0]))
+        c.lineno = unopt(arg[2][1])
+        c.line = None if arg[2][2] == [] else S(arg[2][2][0])
+        e = AuxDataError(S(arg[1]), c)
+        c.lineno, c.line = 77, 'the parser went on'      # the error keeps what it was given (F22)
+    try:
+        st = str(e)
+        st = [0, norm(st)] if isinstance(st, str) else [2]
+    except Exception:
+        st = [2]
+    ln = getattr(e, 'lineno', None)
+    if tag == 5:
+        ln = None        # AuxDataError has no public line attribute; the line is part of str(e)
+    try:
+        f = e.get_filename()
+        f = [0, [] if f is None else [norm(f)]] if (f is None or isinstance(f, str)) else [2]
+    except Exception:
+        f = [2]
+    return [st, public_context(e), call_impl_noerr(format_error, e, 'ERROR: '), opt(ln if isinstance(ln, int) else None), f]
 
 def impl_splitlines(arg):
     return norm(S(arg[1]).splitlines(bool(arg[0])))
 
 def impl_int(arg):
     return norm('{0}'.format(arg))
+
+# ---- real user input, three ways: every problem rendered (a) when it is raised in strict mode,
+# (b) as printed in non-strict mode, (c) from the captured list after the run has finished
+def _render_now(e):
+    from pybtex.errors import format_error
+    try:
+        r = format_error(e, 'WARNING: ')
+        return [0, norm(r)] if isinstance(r, str) else [2]
+    except Exception:
+        return [2]
+
+def _three_renderings(thunk):
+    """-> [strict, nonstrict, capture]
+       strict    = [rendering of the error raised] or []        (rendered in the except clause)
+       nonstrict = [printed text, error_code, fatal rendering?]  (fatal rendered in the except clause)
+       capture   = [[renderings of the collected errors, made after the block was left], fatal rendering?]
+       a foreign exception in any run -> [9] (another property's business)"""
+    from pybtex.exceptions import PybtexError
+    import pybtex.errors as E
+    clear_memos()
+    E_, buf = reset_state(1, 0)
+    strict = []
+    try:
+        thunk()
+    except PybtexError as ex:
+        strict = [_render_now(ex)]
+    except Exception:
+        return [9]
+    clear_memos()
+    E_, buf = reset_state(0, 0)
+    fatal = []
+    try:
+        thunk()
+    except PybtexError as ex:
+        fatal = [_render_now(ex)]
+    except Exception:
+        return [9]
+    nonstrict = [norm(buf.getvalue()), E.error_code, fatal]
+    clear_memos()
+    E_, buf = reset_state(1, 0)
+    lst, fatal = [], []
+    try:
+        with E.capture() as l:
+            lst = l
+            thunk()
+    except PybtexError as ex:
+        fatal = [_render_now(ex)]
+    except Exception:
+        return [9]
+    capture = [[_render_now(e) for e in list(lst)], fatal, [] if E.captured_errors is None else [1]]
+    reset_state(1, 0)
+    return [strict, nonstrict, capture]
+
+def impl_real_bib(arg):
+    import pybtex.database as D
+    text = S(arg)
+    return _three_renderings(lambda: D.parse_string(text, 'bibtex'))
+
+def impl_real_bst(arg):
+    from pybtex.bibtex.interpreter import Interpreter
+    from pybtex.bibtex import bst as BSTM
+    from pybtex.database.input.bibtex import Parser
+    text = S(arg)
+    return _three_renderings(lambda: Interpreter(Parser, 'utf-8').run(BSTM.parse_string(text), [], [], min_crossrefs=2))
+
+def impl_real_aux(arg):
+    from pybtex import auxfile
+    d = tempfile.mkdtemp(prefix='c16aux')
+    try:
+        p = os.path.join(d, 'x.aux')
+        with open(p, 'w', encoding='utf-8', newline='') as f:
+            f.write(S(arg))
+        return _three_renderings(lambda: auxfile.parse_file(p, 'utf-8'))
+    finally:
+        shutil.rmtree(d, ignore_errors=True)
+
+def oracle_real(out):
+    if out == [9]:
+        return None
+    strict, (printed, code, nfatal), (captured, cfatal, capleft) = out
+    if capleft:
+        return 'captured_errors is not None after the capture block'
+    for r in captured + cfatal + nfatal + strict:
+        if r[0] != 0:
+            return 'a reported problem cannot be rendered'
+    printed = S(printed)
+    want = ''.join(S(r[1]) + '\n' for r in captured)
+    if printed != want:
+        return ('the problems rendered after the run (capture mode) differ from the warnings printed when they were '
+                'reported (non-strict mode): %r vs %r' % (want, printed))
+    if cfatal != nfatal:
+        return 'the fatal error renders differently in capture mode (%r) and non-strict mode (%r)' % (
+            [S(r[1]) for r in cfatal], [S(r[1]) for r in nfatal])
+    first = captured[:1] or cfatal
+    if strict != first:
+        return 'strict mode raised %r but the first problem renders as %r after the run' % (
+            [S(r[1]) for r in strict], [S(r[1]) for r in first])
+    if (code != 0) != bool(captured):
+        return '%d problems reported but error_code is %r' % (len(captured), code)
+    return None
 
 E_SCH = ('T', 'N', 'S', 'X', 'X', 'X')
 COMP_SCH = ('T', ('L', E_SCH), 'X')
@@ -335,6 +500,10 @@ FUNCS = {
     7: ('Scanner.required error + format_error', impl_scanner, ('T', 'S', 'S', 'X')),
     8: ('str.splitlines', impl_splitlines, ('T', 'B', 'S')),
     9: ("'{0}'.format(int)", impl_int, 'I'),
+    13: ('constructors of the error classes, observed through str/get_context/format_error/lineno/get_filename', impl_construct, 'X'),
+    10: ('parse_string(.bib) in strict / non-strict / capture mode: renderings of every problem', impl_real_bib, 'S'),
+    11: ('.bst parsed and run in strict / non-strict / capture mode: renderings of every problem', impl_real_bst, 'S'),
+    12: ('.aux parsed in strict / non-strict / capture mode: renderings of every problem', impl_real_aux, 'S'),
 }
 
 def _noout(g):
@@ -344,6 +513,8 @@ def canon(fn, out):
     """compare only what the property talks about: whether an error renders, which problems went
     where and in which order, the mode cells, the exit status -- never the wording of a message
     (the oracle checks, within the implementation, that renderings contain the message)"""
+    if fn in (10, 11, 12):
+        return []        # not modelled: the parsers belong to C10/C15/C20; oracle only
     try:
         if fn in (1, 2, 3):
             return out[:1]
@@ -356,7 +527,9 @@ def canon(fn, out):
         if fn == 7:
             if out[0] == 0:
                 return out
-            return [1, out[1][2:], out[2], out[4][:1]]
+            return [1, out[1], canon_context_value(out[2]), out[3][:1]]
+        if fn == 13:
+            return [out[0][:1], canon_context_value(out[1]), out[2][:1], out[3], out[4]]
     except Exception:
         pass
     return out
@@ -369,11 +542,24 @@ def scanner_lineno(text, pos):
     v = text[:pos]
     return 1 + v.count('\n') + v.count('\r') - v.count('\r\n')
 
+def _f27_open():
+    """F27 is open while known_findings.d/C16.json lists it with status "known".  Once it is repaired
+    in /repo and the entry is switched to "fixed", no raise site of pybtex builds an error with a
+    non-text file name any more: such records become out-of-domain input (still compared with the
+    model, no demand by the oracle); the real .bst input stays in the real-input streams as a
+    regression test."""
+    try:
+        d = json.load(open(os.path.join(VERIF, 'known_findings.d', 'C16.json')))
+        return any(f.get('id') == 'F27' and f.get('status') == 'known' for f in d.get('findings', []))
+    except Exception:
+        return False
+F27_OPEN = _f27_open()
+
 def wellformed(rec):
     """is this record the state of an error pybtex itself can construct from user input?"""
     eid, msg, fn, kind, ctx = rec
     if fn == [1]:
-        return True       # an int as file name is what builtins.py:214 passes (finding F27)
+        return F27_OPEN   # an int as file name is what builtins.py:214 passes (finding F27)
     if ctx[0] == 1:
         text, ln, pos = S(ctx[1]), unopt(ctx[2]), ctx[3]
         # a TokenRequired is raised in front of a character, after whitespace was skipped
@@ -381,6 +567,19 @@ def wellformed(rec):
             and not (text[pos - 1:pos] == '\r' and text[pos:pos + 1] == '\n')
     if ctx[0] == 2:
         text, st, pos = S(ctx[1]), unopt(ctx[2]), ctx[3]
+        return st is not None and 0 <= st < pos <= len(text)
+    return True
+
+def construct_ok(arg):
+    """the premises of theorem format_error_total_by_class (scan_state_ok / bib_state_ok), in Python"""
+    tag = arg[0]
+    if tag == 3:
+        text, _, ln, pos = arg[2]
+        text = S(text)
+        return 0 <= pos < len(text) and text[pos] not in LB and 1 <= ln <= scanner_lineno(text, pos)
+    if tag == 4:
+        text, _, ln, pos = arg[2]
+        st = unopt(arg[3])
         return st is not None and 0 <= st < pos <= len(text)
     return True
 
@@ -441,6 +640,9 @@ def oracle_hist(arg, out):
             if e[0] == 6:
                 return 'problem %d was lost: neither collected, raised nor printed' % eid
             if e[0] == 4:
+                if op[1][2] == [1] and not F27_OPEN:
+                    blocks = []      # out-of-domain record (non-text file name): the renderer's exception left every block
+                    continue
                 return 'reporting problem %d raised a foreign exception' % eid
             if blocks and blocks[-1] is not None:
                 if e[:2] != [1, blocks[-1]]:
@@ -537,6 +739,8 @@ def oracle_cmdline(arg, out):
     return None
 
 def oracle(fn, arg, out):
+    if fn in (10, 11, 12):
+        return oracle_real(out)
     if fn == 1:
         rec, prefix = arg
         if not wellformed(rec):
@@ -577,14 +781,27 @@ def oracle(fn, arg, out):
         return oracle_modes(arg, out)
     if fn == 6:
         return oracle_cmdline(arg, out)
+    if fn == 13:
+        if arg[0] == 0 and arg[2] == [1]:
+            return 'format_error raised instead of returning text' if (out[2][0] != 0 and F27_OPEN) else None
+        if not construct_ok(arg):
+            return None
+        if out[0][0] != 0 or out[1][0] != 0 or out[2][0] != 0 or out[4][0] != 0:
+            return 'an error built by its constructor from a state its raise sites guarantee cannot be rendered'
+        text = S(out[2][1])
+        if S(out[0][1]) not in text:
+            return 'the rendering lacks str(error)'
+        if out[1][1] and out[1][1][0] and not subseq_in_order(S(out[1][1][0]).splitlines(), text, ''):
+            return 'the rendering lacks the source context'
+        return None
     if fn == 7:
         if out[0] == 0:
             return None
-        r = out[4]
-        if r[0] != 0:
+        r = out[3]
+        if r[0] != 0 or out[2][0] != 0:
             return 'the error raised by the scanner cannot be rendered'
-        if S(out[3]) not in S(r[1]):
-            return 'rendering lacks the message'
+        if out[2][1] and out[2][1][0] and not subseq_in_order(S(out[2][1][0]).splitlines(), S(r[1]), ''):
+            return 'rendering lacks the source context'
         return None
     return None
 
@@ -760,6 +977,63 @@ def gen(tier, rng):
     for i in range(N):
         text = rnd_text(rng, rng.randint(0, 3), ' \n\r\t\x0c\x85 　') + rnd_text(rng, rng.randint(0, 12), 'xy \n\r\x0b{}')
         yield ('rnd_scanner', 7, [text, rng.choice(['x', 'xy', '{', '']), rng.choice(FNAMES)])
+    # ---- constructors of the classes: exhaustive small scanner states + random
+    fns = [[], ['f.bib'], ['']]
+    for n in range(0, (3 if quick else 4) + 1):
+        for t in itertools.product('a\n\r\x0c', repeat=n):
+            text = ''.join(t)
+            for pos in range(0, n + 1):
+                for ln in (1, 2, 3):
+                    sc = [text, fns[(n + pos + ln) % 3], ln, pos]
+                    yield ('exh_construct', 13, [3, "'x'", sc])
+                    yield ('exh_construct', 13, [4, 'a name', sc, [[], [0], [1]][(pos + ln) % 3]])
+                    if pos == 0:
+                        yield ('exh_construct', 13, [2, sc])
+                        yield ('exh_construct', 13, [1, ETYPES[ln - 1], MSGS[n % len(MSGS)], sc])
+    for msg in MSGS:
+        for fn_ in FNAMES + [[1]]:
+            yield ('exh_construct', 13, [0, msg, fn_])
+        for f_ in fns:
+            for ln in LINENOS:
+                for line in ([], [''], ['\\bibdata{x}']):
+                    yield ('exh_construct', 13, [5, msg, [f_, ln, line]])
+    for i in range(N // 2):
+        text = rnd_text(rng, rng.randint(1, 25), 'ab  \n\n\r@{},=\x0c\x85')
+        pos = rng.randrange(len(text) + 1)
+        ln = rng.choice([scanner_lineno(text, pos), scanner_lineno(text, pos), 1, rng.randint(1, 4)])
+        sc = [text, rng.choice(fns), ln, pos]
+        yield ('rnd_construct', 13, [3, rng.choice(MSGS), sc])
+        yield ('rnd_construct', 13, [4, rng.choice(MSGS), sc, rng.choice([[], [0], [max(0, pos - 1)], [pos], [rng.randint(0, len(text))]])])
+    # ---- real user input, corrupted, with several commands after the bad one
+    NR = 400 if quick else 6000
+    bib_toks = ['@', '{', '}', '"', ',', '=', '#', '(', ')', '\n', ' ', 'key1', '\r\n', '\x0c', 'undefinedmacro']
+    tail = '@misc{t1, note = {fine}}\n\n@misc{t2,\n  note = "also fine"\n}\n@comment{x}\n@misc{t3, note = 3}\n'
+    for t in ['@article{k, a = }\n' + tail, '@article{k, a = "x" # }\n' + tail, '@a{k,\n\n a = {x}\n b = {y}}\n' + tail,
+              '@article{k, a = b}\n@article{k, a = {x}, A = {y}}\n' + tail, '@a{k, a = {x}\n\n' + tail, BIB + '@article\n' + tail,
+              '@a{k, author = {A, B, C, D}}\n@a{k, x = }' + tail]:
+        yield ('real_bib', 10, t)
+    for i in range(NR):
+        t = BIB
+        for _ in range(rng.randint(1, 3)):
+            t = corrupt(rng, t, bib_toks)
+        yield ('real_bib', 10, t + rng.choice([tail, tail, '', '\n@misc{z, k = 1}\n']))
+    bst_tail = 'FUNCTION {g} { "w1" warning$ "w2" warning$ }\nEXECUTE {g}\nEXECUTE {g}\n'
+    for t in ['FUNCTION {f} { "w" warning$ #1 "a" * }\nEXECUTE {f}\n' + bst_tail, bst_tail + 'FUNCTION {f\n\n', bst_tail + 'foo {x}\n' + bst_tail,
+              bst_tail + 'FUNCTION {h} { #-1 int.to.chr$ }\nEXECUTE {h}\n']:
+        yield ('real_bst', 11, t)
+    for i in range(NR // 2):
+        t = BST + bst_tail
+        for _ in range(rng.randint(1, 2)):
+            t = corrupt(rng, t, ['{', '}', '"', '#', "'", ' ', '\n', 'f', 'pop$', 'EXECUTE', '%', ':=', 'warning$'])
+        yield ('real_bst', 11, t)
+    aux_tail = '\\citation{d}\n\\citation{D}\n\\bibstyle{again}\n\\relax\n\\bibdata{again}\n\\citation{e}\n'
+    for t in [AUX + aux_tail, aux_tail, '\\citation{a,A,a}\n' + AUX + aux_tail, '\\bibstyle{s}\n' + aux_tail]:
+        yield ('real_aux', 12, t)
+    for i in range(NR // 2):
+        t = AUX + aux_tail
+        for _ in range(rng.randint(1, 2)):
+            t = corrupt(rng, t, ['\\', '{', '}', '\n', 'citation', 'bibstyle', 'bibdata', 'A', ',', '\r\n'])
+        yield ('real_aux', 12, t)
     # ---- malformed: inconsistent scanner states, negative positions
     for i in range(N // 3):
         text = rnd_text(rng, rng.randint(0, 12), 'ab \n\r\x0c')
@@ -786,6 +1060,8 @@ def nontrivial(fn, arg, out):
         return out[0] == 1
     if fn == 8:
         return len(out) >= 2
+    if fn in (10, 11, 12):
+        return True
     return True
 
 def describe_err(r):
@@ -808,6 +1084,11 @@ def describe(fn, arg):
         return {'text': S(arg[0]), 'required literal': S(arg[1]), 'filename': arg[2]}
     if fn == 8:
         return {'keepends': arg[0], 'text': S(arg[1])}
+    if fn == 13:
+        return {'constructor': ['PybtexError(message, filename)', 'PybtexSyntaxError(message, parser)', 'PrematureEOF(parser)', 'TokenRequired(description, Scanner)', 'TokenRequired(description, LowLevelParser)', 'AuxDataError(message, context)'][arg[0]],
+                'args': [S(x) if isinstance(x, list) and x and all(isinstance(c, int) for c in x) else x for x in arg[1:]]}
+    if fn in (10, 11, 12):
+        return {'kind': {10: '.bib', 11: '.bst', 12: '.aux'}[fn], 'text': S(arg)}
     return {'value': arg}
 
 RULE = ('quick tier -- exhaustive: str.splitlines over {a,\\n,\\r,\\v,U+2028}^<=5; Scanner/LowLevelParser error contexts over all texts of length <= 4 over 4-letter alphabets x every position x lineno/start values; every attribute combination of the remaining error classes; every history of length <= 5 over {set_strict_mode(True/False), enter, exit, raise-in-inner, raise-to-top, report_error} from both initial modes; every computation of <= 3 reports x 4 endings in all modes and through CommandLine; Scanner.required on all texts of length <= 5 over {space,\\n,\\r,x,y,\\f}.  Random: error records, histories of <= 14 operations, computations, scanner texts; malformed: inconsistent scanner states.  distinct = distinct (function, argument); non-trivial = multi-line rendering / at least two events / at least one report / an error raised.  '
@@ -838,6 +1119,10 @@ def _sig_F27(kind, fn, arg, detail):
         return False
     if fn == 1:
         return arg[0][2] == [1] and 'format_error raised' in str(detail)
+    if fn == 13:
+        return arg[0] == 0 and arg[2] == [1] and 'format_error raised' in str(detail)
+    if fn == 11:
+        return 'int.to.chr$' in S(arg) and 'cannot be rendered' in str(detail)
     if fn == 4:
         m = re.search(r'reporting problem (\d+) raised a foreign exception', str(detail))
         return bool(m) and any(o[0] == 5 and o[1][0] == int(m.group(1)) and o[1][2] == [1] for o in arg[2])
@@ -974,9 +1259,15 @@ def err_to_record(e, eid=0):
     from pybtex.exceptions import PybtexError
     from pybtex.scanner import PybtexSyntaxError, TokenRequired
     from pybtex.auxfile import AuxDataError
-    f = e.filename
+    f = getattr(e, 'filename', None)
     fn = [] if f is None else ([0, f] if isinstance(f, str) else [1])
     t = type(e)
+    # the attributes below are implementation details: when they are not there the object is not
+    # translated (counted as skipped), never a crash of the check
+    if isinstance(e, TokenRequired) and not (hasattr(e, 'error_context_info') and hasattr(getattr(e, 'parser', None), 'text')):
+        return None
+    if isinstance(e, AuxDataError) and not (hasattr(getattr(e, 'context', None), 'lineno') and hasattr(getattr(e, 'context', None), 'line')):
+        return None
     if len(e.args) != 1 or not isinstance(e.args[0], str):
         return None
     msg = e.args[0]
@@ -1056,9 +1347,9 @@ def three_modes(thunk):
     # premises of the theorems scanner_errors_render / bib_ctx_wellformed on the real error objects
     from pybtex.scanner import TokenRequired
     for e in list(L) + [x for x in (fc, fn_, fs) if x is not None]:
-        if isinstance(e, TokenRequired):
-            info = e.error_context_info
-            text = e.parser.text
+        info = getattr(e, 'error_context_info', None)
+        text = getattr(getattr(e, 'parser', None), 'text', None)
+        if isinstance(e, TokenRequired) and isinstance(info, tuple) and isinstance(text, str):
             if len(info) == 3:
                 st, ln, pos = info
                 if not (st is not None and 0 <= st < pos <= len(text)):
@@ -1121,7 +1412,7 @@ def real_inputs(ck, tier, rng):
     counter = [0]
     def bib(t):
         return lambda: D.parse_string(t, 'bibtex')
-    def bstrun(t, bibtext=None):
+    def bstrun(t, bibtext=None, cites=('key1', 'nokey')):
         def f():
             from pybtex.bibtex.interpreter import Interpreter
             from pybtex.database.input.bibtex import Parser
@@ -1131,7 +1422,7 @@ def real_inputs(ck, tier, rng):
                 p = os.path.join(tmp, 'b%d.bib' % counter[0])
                 open(p, 'w', encoding='utf-8').write(bibtext)
                 files = [p]
-            Interpreter(Parser, 'utf-8').run(BSTM.parse_string(t), ['key1', 'nokey'] if bibtext is not None else [], files, min_crossrefs=2)
+            Interpreter(Parser, 'utf-8').run(BSTM.parse_string(t), list(cites) if bibtext is not None else [], files, min_crossrefs=2)
         return f
     def aux(t):
         counter[0] += 1
@@ -1228,6 +1519,26 @@ def real_inputs(ck, tier, rng):
         d.add_entry('K', Entry('misc'))
         d.add_entry('k', Entry('misc'))
     yield ('add_entry twice', addtwice)
+    yield ('bst call.type$ without a function for the entry type',
+           bstrun('ENTRY {title}{}{} FUNCTION {default.type} { "d" write$ newline$ } READ ITERATE {call.type$}', BIB, cites=('key1', 'key2')))
+    def external_bibtex():
+        # pybtex.bibtex.runner.run_bibtex reports the output of a failing external `bibtex`;
+        # a stand-in executable that fails after writing the .bbl is put first on PATH
+        from pybtex.bibtex import runner
+        from pybtex.database import BibliographyData, Entry as E_
+        bindir = os.path.join(tmp, 'bin')
+        os.makedirs(bindir, exist_ok=True)
+        exe = os.path.join(bindir, 'bibtex')
+        with open(exe, 'w') as f:
+            f.write('#!/bin/sh\necho "I found no style file"\necho x > test.bbl\nexit 2\n')
+        os.chmod(exe, 0o755)
+        old = os.environ.get('PATH', '')
+        os.environ['PATH'] = bindir + os.pathsep + old
+        try:
+            return runner.run_bibtex('ENTRY{}{}{}', BibliographyData({'k': E_('misc', {'title': 'T'})}))
+        finally:
+            os.environ['PATH'] = old
+    yield ('external bibtex fails', external_bibtex)
     def badxref():
         d = D.parse_string('@a{k, crossref={zz}, t={x}}\n@a{k2, crossref={zz}}', 'bibtex')
         return d.add_extra_citations(['k', 'k2'], 2)
@@ -1345,7 +1656,11 @@ def extra_checks(ck, tier, rng):
                 seen.add(sig)
                 fails.append((label, msg, True))
     covered = [s for s in sites if any(r == s[0] and s[1] <= l <= s[2] for (r, l) in reached)]
-    yield {'name': 'real_inputs_three_modes', 'evaluations': n, 'failures': fails[:6],
+    for s_ in sites:
+        if s_ not in covered:
+            # fail closed: the enumeration claims every site; a site no input reaches is not covered
+            fails.append(('%s:%d %s' % (s_[0], s_[1], s_[3]), 'this report/raise site is not reached by any input of the check, so "every problem pybtex detects" is not exercised for it (add an input to real_inputs)', False))
+    yield {'name': 'real_inputs_three_modes', 'evaluations': n, 'failures': fails[:8],
            'info': {'sites_total': len(sites), 'sites_raised_from_in_this_run': len(covered),
                     'sites_not_reached': ['%s:%d %s' % (s[0], s[1], s[3]) for s in sites if s not in covered]}}
     shutil.rmtree(os.path.join(ck.rundir, 'inputs'), ignore_errors=True)
